@@ -275,6 +275,17 @@ def run(ctx):
                     ctx.violation({"kind": "exact-buffers-do-not-suffice", "swapper": True},
                                   "a walk through the layouts of the layout swapper with arrays of exactly bufferSize fails on process grid %s, shape %s: %s" % (
                                       g, shp, rw.describe()[:300]), {"nprocs": g, "shape": shp})
+        # ... and for the two three-layout groups of the repository's own 4-D swapper test (multi-step routes inside the smaller group)
+        names4 = [n_ for g_ in scenarios.GROUPS4 for n_ in g_]
+        walk4 = [[rng.choice(names4), bool(k_ % 2)] for k_ in range(14)]
+        for shp in ([5, 7, 5, 7], [4, 6, 5, 6]):
+            if g[0] <= min(shp[0], shp[2], shp[3]) and g[1] <= min(shp[2], shp[3]):
+                rw = MPI.run(n, scenarios.scn_swapper4, policy="random", seed=rng.randint(0, 999), args=(shp, g, walk4))
+                ctx.count(("swapper4-exact-buffers", tuple(g), tuple(shp)))
+                if not rw.ok:
+                    ctx.violation({"kind": "exact-buffers-do-not-suffice", "swapper": True},
+                                  "a walk through the two three-layout groups of a layout swapper with arrays of exactly bufferSize fails on process grid %s, shape %s: %s" % (
+                                      g, shp, rw.describe()[:300]), {"nprocs": g, "shape": shp, "walk": walk4})
         for name in res.values[0]:
             cnt = np.zeros(shape, dtype=int)
             procs = None
